@@ -573,3 +573,68 @@ func (g *Gen) genFunc(t reflect.Type, depth int) (Val, bool) {
 	})
 	return Val{f, "func(x) { return x." + m.Name + "(" + strings.Join(parts, ", ") + ") }"}, true
 }
+
+// Plan is one derivation step prepared in advance: a method of the receiver type with generated arguments.
+type Plan struct {
+	Name string
+	Prog string
+	p    *producer
+	args []reflect.Value
+}
+
+// PlanFor prepares a random derivation step for values of type t (nil if t has no usable method).
+func (g *Gen) PlanFor(t reflect.Type, depth int) *Plan {
+	var ms []*producer
+	for _, p := range g.producers {
+		if p.recv == t && p.cost < inf {
+			ms = append(ms, p)
+		}
+	}
+	if len(ms) == 0 {
+		return nil
+	}
+	for attempt := 0; attempt < 6; attempt++ {
+		p := ms[g.Rng.Intn(len(ms))]
+		var args []reflect.Value
+		var parts []string
+		ok := true
+		n := p.typ.NumIn()
+		for j := 1; j < n && ok; j++ {
+			hint := ""
+			if j-1 < len(p.params) {
+				hint = p.params[j-1]
+			}
+			a, good := g.Gen(p.typ.In(j), depth, hint)
+			if !good {
+				ok = false
+				break
+			}
+			if p.typ.IsVariadic() && j == n-1 {
+				for i := 0; i < a.V.Len(); i++ {
+					args = append(args, a.V.Index(i))
+				}
+				if a.V.Len() > 0 {
+					parts = append(parts, a.Prog+"...")
+				}
+			} else {
+				args = append(args, a.V)
+				parts = append(parts, a.Prog)
+			}
+		}
+		if ok {
+			m := p.name[strings.IndexByte(p.name, '.')+1:]
+			return &Plan{Name: p.name, Prog: "." + m + "(" + strings.Join(parts, ", ") + ")", p: p, args: args}
+		}
+	}
+	return nil
+}
+
+// Apply runs the prepared step on recv; ok is false when the call panics (derivation-time panic).
+func (pl *Plan) Apply(recv reflect.Value) (out reflect.Value, ok bool) {
+	defer func() {
+		if r := recover(); r != nil {
+			ok = false
+		}
+	}()
+	return recv.Method(pl.p.method).Call(pl.args)[0], true
+}
